@@ -349,6 +349,54 @@ def check(run):
             i = np.argwhere(np.abs(vel - v) > vq * (0.5 + 1e-6))[0]
             run.violation('pack9-roundtrip-vel', dict(cpd=cpd, v=float(v[tuple(i)]), decoded=float(vel[tuple(i)]), quantum=vq))
 
+    # 4b. call history and concurrent callers.  Results handed out earlier stay what they were after later calls (same float type,
+    # outputs left to the routine, a stream no longer than the earlier one), and decodes issued at the same time from several
+    # Python threads (a thread pool over files) each return their own stream's particles.
+    def mkstream(n, cpd):
+        f = rng.integers(0, 4096, (n, 6))
+        f[:, 0] = rng.integers(0, 0xFF0, n)
+        return np.concatenate([header_record(cpd, int(rng.integers(1, 4000)), [int(t) for t in rng.integers(0, cpd, 3)]), pack_fields(f)])
+
+    for dtype in (np.float32, np.float64):
+        first = mkstream(5000, 77)
+        held = pack9.unpack_pack9(first, 500.0, 1000.0, float_dtype=dtype)
+        snap = [np.array(a, copy=True) for a in held]
+        for n2 in (5000, 4999, 300):
+            pack9.unpack_pack9(mkstream(n2, 12), 500.0, 1000.0, float_dtype=dtype)
+            run.ev()
+            run.nt(('held_results', np.dtype(dtype).str, n2))
+            run.count('earlier_results_rechecked', 2)
+            if any(not np.array_equal(a, b, equal_nan=True) for a, b in zip(held, snap)):
+                run.violation('pack9-earlier-result-changed-by-later-call', dict(dtype=np.dtype(dtype).str, first_stream_records=len(first), later_stream_records=n2 + 1))
+                break
+    import threading
+
+    nth = 8
+    streams = [mkstream(150000 + 1000 * i, (3, 875, 1700, 12)[i % 4]) for i in range(nth)]
+    for rep in range(2 if run.quick else 10):
+        res = [None] * nth
+        bar = threading.Barrier(nth)
+
+        def work(i):
+            bar.wait()
+            try:
+                res[i] = pack9.unpack_pack9(streams[i], 2000.0, 1000.0, float_dtype=np.float64)
+            except Exception as e:  # noqa
+                res[i] = e
+
+        ths = [threading.Thread(target=work, args=(i,)) for i in range(nth)]
+        [t.start() for t in ths]
+        [t.join() for t in ths]
+        run.ev()
+        run.nt(('concurrent-callers', rep))
+        for i in range(nth):
+            run.count('concurrent_decodes_checked')
+            if isinstance(res[i], Exception):
+                run.violation('pack9-concurrent-callers', dict(problem=f'{type(res[i]).__name__}: {res[i]}'[:200], threads=nth))
+                break
+            if compare(run, streams[i], 2000.0, 1000.0, np.float64, res[i][0], res[i][1], len(streams[i]) - 1, f'concurrent:thread{i}of{nth}', 'alloc'):
+                break
+
     # 5. a stream of millions of records through read_asdf (the anchored second entry point): one cell holding 2^21+70001
     # particles with no header in between, then an ordinary cell
     import os
